@@ -117,6 +117,19 @@ def cases(tier, seed):
             steps.append({"do": "save", "path": "A", "mode": directed, "tree": True, "emdpath": None, "input": gen_list(r, trees, list(unrooted))})
             steps.append({"do": "walk", "path": "A"})
             first = False
+        if i % 8 == 2 and directed is None:
+            # directed: the SAME unrooted node is saved twice in one process, first inside a tuple, then inside a list, each time
+            # with a dict of its own: the second file holds what the second call was given (an unrooted node is handed back
+            # unrooted whatever sequence type it travelled in)
+            if not unrooted:
+                unrooted["U0"] = {"name": "u0", "cls": "Node", "pay": {}, "md": [], "kids": []}
+            uid = sorted(unrooted)[0]
+            directed = "tuple_then_list"
+            for kind, val in (("tuple", 1), (r.choice(["list", "tuple"]), 2)):
+                steps.append({"do": "save", "path": "A", "mode": "w" if first else r.choice(["o", "overwrite"]), "tree": True, "emdpath": None,
+                              "input": {"kind": kind, "items": [{"unrooted": uid}, {"dict": [["which", {"t": "int", "v": val}]]}]}})
+                steps.append({"do": "walk", "path": "A"})
+                first = False
         if coincide is not None and directed is None:
             # directed: the other tree is in the file; the node alone is appended at its own path, then its branch
             ta_id, tb_id, pth = coincide
